@@ -98,6 +98,12 @@ func checkPriority(prio uint16) (uint16, error) {
 // See the docs for gopacket.SerializableLayer for more info.
 func (s *STP) SerializeTo(b gopacket.SerializeBuffer, opts gopacket.SerializeOptions) error {
 	var flags uint8 = 0x00
+	if len(s.RouteID.HwAddr) != 6 {
+		return fmt.Errorf("invalid root bridge MAC: %v", s.RouteID.HwAddr)
+	}
+	if len(s.BridgeID.HwAddr) != 6 {
+		return fmt.Errorf("invalid bridge MAC: %v", s.BridgeID.HwAddr)
+	}
 	bytes, err := b.PrependBytes(35)
 	if err != nil {
 		return err
